@@ -307,7 +307,7 @@ def main():
     else:
         mem_pairs += F.f_mem_move_pairs(deltas=(0, 8, 16, 40), length=4)[::8]
     tasks = []
-    fbases = forves_bases(61, 97) if tier == "quick" else forves_bases(5, 11)
+    fbases = forves_bases(61, 97) if tier == "quick" else forves_bases(11, 23)
     osets = [gasol.optset("none", "gas", True, True, "greedy"), gasol.optset("none", "gas", False, True, "greedy"),
              gasol.optset("storage", "gas", True, True, "greedy"), gasol.optset("partition", "size", True, False, "greedy")]
     for k, o in enumerate(osets):
